@@ -58,7 +58,7 @@ def lattice_path_sites(ens, n_intf, lm1=None):
     return up + up[-2::-1]
 
 
-def write_lat_path(pdir, sites, vels=None, fname="init.lat"):
+def write_lat_path(pdir, sites, vels=None, fname="init.lat", shift=0.0):
     os.makedirs(os.path.join(pdir, "accepted"), exist_ok=True)
     if vels is None:
         vels = [1] * len(sites)
@@ -74,21 +74,25 @@ def write_lat_path(pdir, sites, vels=None, fname="init.lat"):
         f.write("# Cycle: 0, status: ACC, move: ('ld', 0, 0, 0)\n")
         f.write("#     Time       Orderp\n")
         for i, x in enumerate(sites):
-            f.write(f"{i:>10d} {float(x):>12.6f}\n")
+            f.write(f"{i:>10d} {float(x) + shift:>12.6f}\n")
 
 
 def make_config(spec):
     n = spec["n_intf"]
-    intf = [k + 0.5 for k in range(n)]
+    # "shift" moves the whole order-parameter axis (interfaces, cap,
+    # lambda_minus_one and the order function): lattice sites then sit off
+    # the integers, e.g. lambda_minus_one = -1.5 + 1.5 = 0.0 exactly
+    sh = float(spec.get("shift", 0.0))
+    intf = [k + 0.5 + sh for k in range(n)]
     moves = spec.get("moves") or ["sh"] * n
     tis = {"maxlength": spec.get("maxlength", 2000),
            "allowmaxlength": bool(spec.get("allowmaxlength", False)),
            "zero_momentum": False,
            "n_jumps": spec.get("n_jumps", 2)}
     if spec.get("cap") is not None:
-        tis["interface_cap"] = spec["cap"]
+        tis["interface_cap"] = spec["cap"] + sh
     if spec.get("lm1") is not None:
-        tis["lambda_minus_one"] = spec["lm1"]
+        tis["lambda_minus_one"] = spec["lm1"] + sh
     eng = spec.get("engine", "lattice")
     if eng == "lattice":
         engine = {"class": "LatticeEngine", "module": PLUGIN,
@@ -106,7 +110,9 @@ def make_config(spec):
                        "seed": spec.get("seed", 0), "load_dir": "load",
                        "shooting_moves": moves, "tis_set": tis},
         "engine": engine,
-        "orderparameter": {"class": "SiteOrder", "module": PLUGIN},
+        "orderparameter": ({"class": "SiteOrder", "module": PLUGIN,
+                            "offset": sh} if sh else
+                           {"class": "SiteOrder", "module": PLUGIN}),
         "output": {"data_dir": "./", "screen": spec.get("screen", 1),
                    "pattern": False,
                    "delete_old": bool(spec.get("delete_old", False))},
@@ -163,7 +169,8 @@ def make_case_dir(spec, cdir):
     n = spec["n_intf"]
     for ens in range(n):
         write_lat_path(os.path.join(cdir, "load", str(ens)),
-                       lattice_path_sites(ens, n, spec.get("lm1")))
+                       lattice_path_sites(ens, n, spec.get("lm1")),
+                       shift=float(spec.get("shift", 0.0)))
     return cfg
 
 
